@@ -5,9 +5,9 @@ def _none(bases, modes):
 PROPS["C09"] = dict(
   jobs=[
     dict(name="c09", **_c09_common,
-         shards={"quick": _none([B_TET2_FACE, B_TET3_RING, B_TET3_FAN], [1]) + op_shards([B_TET2_FACE], [0, 1, 3], [OP_DEL_C], per=4) + op_shards([B_TET3_FAN], [1], [OP_DEL_C], per=4)
+         shards={"quick": _none([B_TET2_FACE, B_TET3_RING, B_TET3_FAN, B_TET, B_TET_ODD], [1]) + op_shards([B_TET3_RING], [1], [OP_DEL_C], per=4) + op_shards([B_TET2_FACE], [0, 1, 3], [OP_DEL_C], per=4) + op_shards([B_TET3_FAN], [1], [OP_DEL_C], per=4)
                         + op_shards([B_TET2_FACE], [1], [OP_SWAP_C, OP_BU_TOGGLE], per=4)[:5],
-                 "thorough": _none([B_PRISM_PYR, B_HEX2, B_TET2_EDGE], [1]) + op_shards([B_TET3_RING, B_TET3_FAN], [0, 1, 3], [OP_DEL_C, OP_DEL_F], per=4)
+                 "thorough": _none([B_PRISM_PYR, B_HEX2, B_HEX, B_TET2_EDGE, B_TWOFACE], [1]) + op_shards([B_TET3_RING, B_TET3_FAN], [0, 1, 3], [OP_DEL_C, OP_DEL_F], per=4)
                         + op_shards([B_TET2_FACE], [0, 1, 3], [OP_DEL_F, OP_DEL_E, OP_DEL_V], per=4) + op_shards([B_TET2_FACE], [1], [OP_SWAP_F, OP_SWAP_E, OP_SWAP_C, OP_BU_TOGGLE], per=4)
                         + _with(op_shards([B_TET3_RING, B_TET3_FAN], [1, 3], [OP_GC], per=4), {4: OP_DEL_C, 5: 1}) + op_shards([B_TET3_RING], [1], [OP_SWAP_C, OP_SWAP_F], per=4)},
          bounds="bases: two tets sharing a face, three tets in a closed ring around an edge, three tets in an open fan (cells attached out of order); thorough adds prism+pyramid, two hexahedra, two tets sharing only an edge; "
